@@ -317,12 +317,15 @@ class Include(_Container):
         """ No need to provide any dependencies to include. """
         return []
 
-    def defined_symbols(self):
-        """ Generate collection of symbols delivered by this include. """
+    def defined_symbols(self, visited=None):
+        """ Generate collection of symbols delivered by this include (each included file is walked once). """
+        visited = set() if visited is None else visited
         for member in self.members:
             if isinstance(member, Include):
-                for symbol in member.defined_symbols():
-                    yield symbol
+                if id(member.members) not in visited:
+                    visited.add(id(member.members))
+                    for symbol in member.defined_symbols(visited):
+                        yield symbol
             else:
                 yield member
 
